@@ -567,7 +567,13 @@ impl WebSocketContext {
         };
 
         // If we're closing and there is nothing to send anymore, we should close the connection.
-        if self.role == Role::Server && !self.state.can_read() {
+        if self.role == Role::Server
+            && matches!(
+                self.state,
+                WebSocketState::ClosedByPeer | WebSocketState::CloseAcknowledged
+            )
+            && self.additional_send.is_none()
+        {
             // The underlying TCP connection, in most normal cases, SHOULD be closed
             // first by the server, so that it holds the TIME_WAIT state and not the
             // client (as this would prevent it from re-opening the connection for 2
